@@ -59,6 +59,7 @@ func selFieldsOn(e ast.Expr, root string) []string {
 }
 
 func runC24(c *eng.Ctx) {
+	hardLinkWriteThrough(c, "ORDER-wrapper")
 	P := c.P
 	// ---------------------------------------------------------------- (1) CODEC-attr
 	wfd, wpk := P.FuncDecl("weed/filer", "EntryAttributeToPb")
